@@ -946,16 +946,17 @@ theorem implRet_eq (r : Option View) (hn : ∀ v ∈ r, v.natural) : implRet r =
         (match classifyAgg v.size v.elems with
          | .memory => RetPlace.sret
          | _ => RetPlace.regs (placeArg v ⟨0, 0, 0⟩).1) := by
-      unfold placeRet placeArg
+      simp only [placeRet, placeArg]
       cases hc : classifyAgg v.size v.elems with
-      | none => rfl
-      | memory => rfl
+      | none => simp
+      | memory => simp
       | regs cs => simp [hfit cs hc]
     rw [hspec]
     unfold implRet lowerRetV
     cases hk : classifyV v true with
     | void =>
       rw [hk] at hs
+      simp only [hk]
       have himg : regImage v = .regs [] := by simpa [kindImage, kindRegs] using hs.1.symm
       have hp := place_none v ⟨0, 0, 0⟩ hok himg
       have hne : classifyAgg v.size v.elems ≠ .memory := by
@@ -963,6 +964,7 @@ theorem implRet_eq (r : Option View) (hn : ∀ v ∈ r, v.natural) : implRet r =
       cases hc : classifyAgg v.size v.elems <;> simp_all [ccArgs]
     | memory =>
       rw [hk] at hs
+      simp only [hk]
       have himg : regImage v = .memory := by simpa [kindImage] using hs.1.symm
       have : classifyAgg v.size v.elems = .memory := by
         unfold regImage at himg
@@ -970,15 +972,17 @@ theorem implRet_eq (r : Option View) (hn : ∀ v ∈ r, v.natural) : implRet r =
       simp [this]
     | coerce r =>
       rw [hk] at hs
+      simp only [hk]
       have himg : regImage v = .regs [(regCls r, 0)] := by simpa [kindImage, kindRegs] using hs.1.symm
       have hp := place_single r v ⟨0, 0, 0⟩ hok hal himg
       have hne : classifyAgg v.size v.elems ≠ .memory := by
         intro h; simp [regImage, h] at himg
       simp only [List.map_cons, List.map_nil]
       rw [hp]
-      cases hc : classifyAgg v.size v.elems <;> simp_all
+      all_goals (cases hc : classifyAgg v.size v.elems <;> simp_all)
     | coerce2 r1 r2 =>
       rw [hk] at hs
+      simp only [hk]
       have himg : regImage v = .regs [(regCls r1, 0), (regCls r2, off2 r1 r2)] := by
         simpa [kindImage, kindRegs] using hs.1.symm
       have hp := place_double r1 r2 v ⟨0, 0, 0⟩ (off2 r1 r2) hok hal himg hnsplit
@@ -986,9 +990,10 @@ theorem implRet_eq (r : Option View) (hn : ∀ v ∈ r, v.natural) : implRet r =
         intro h; simp [regImage, h] at himg
       simp only [List.map_cons, List.map_nil]
       rw [hp]
-      cases hc : classifyAgg v.size v.elems <;> simp_all
+      all_goals (cases hc : classifyAgg v.size v.elems <;> simp_all)
     | direct =>
       rw [hk] at hs
+      simp only [hk]
       have himg := hs.1.symm
       simp only [kindImage, kindRegs] at himg
       have hne : classifyAgg v.size v.elems ≠ .memory := by
@@ -998,6 +1003,7 @@ theorem implRet_eq (r : Option View) (hn : ∀ v ∈ r, v.natural) : implRet r =
         split at hk
         · left; assumption
         · right; exact getTypeInfo_direct _ _ _ hk
+      have hal4 := natural_align v hnv
       obtain ⟨h1, h2, h3⟩ := hnv
       have hlen' : v.types.length < 2 := by
         rcases hlen with h | h
@@ -1023,6 +1029,83 @@ theorem implRet_eq (r : Option View) (hn : ∀ v ∈ r, v.natural) : implRet r =
         simp only [List.map_cons, List.map_nil] at himg ⊢
         have hp := place_single s.regTy v ⟨0, 0, 0⟩ hok hal himg
         rw [hp]
-        cases hc : classifyAgg v.size v.elems <;> simp_all
+        all_goals (cases hc : classifyAgg v.size v.elems <;> simp_all)
+
+/-! ## `fitsInRegs` implies `noSplit` -/
+
+theorem argFits_noSplit (v : View) (st : St) (hst : st.ok) (hn : v.natural) (h : argFits v st = true) :
+    argNoSplit v st = true := by
+  unfold argFits at h
+  unfold argNoSplit
+  cases hc : classifyAgg v.size v.elems with
+  | none => rfl
+  | memory => rfl
+  | regs cs =>
+    rw [hc] at h
+    simp only [Bool.or_eq_true, decide_eq_true_eq] at h ⊢
+    rcases h with h | h
+    · -- fewer than two leaves: at most one eightbyte
+      have hal := natural_align v hn
+      obtain ⟨h1, h2, h3⟩ := hn
+      have hlen : cs.length ≤ 1 := by
+        unfold classifyAgg at hc
+        split at hc
+        · simp at hc
+        · split at hc
+          · simp at hc
+          · simp only [ArgClass.regs.injEq] at hc
+            rw [← hc]
+            simp only [List.length_map, List.length_range]
+            match hty : v.types, h with
+            | [], _ => rw [hty] at h2; simp only [natEnd] at h2; rw [h2]
+                       rcases hal with a | a | a | a <;> rw [a] <;> decide
+            | [s], _ =>
+              rw [hty] at h2
+              have h0 : natEnd [s] 0 = s.size := by
+                simp only [natEnd]
+                rcases size_cases s with h | h | h | h <;> rw [h] <;> unfold alignUp <;> omega
+              rw [h0] at h2
+              have := alignUp_le_of_le8 s.size v.align (size_le8 s) hal
+              omega
+      obtain ⟨hg, hs⟩ := hst
+      match cs, hlen with
+      | [], _ => right; rfl
+      | [c], _ =>
+        cases c
+        · right; rfl
+        · by_cases hh : st.gpr + 1 ≤ 6
+          · left; simp [fits, countInt, countSse, hh, hs]
+          · right; simp [exhausted]; omega
+        · by_cases hh : st.sse + 1 ≤ 8
+          · left; simp [fits, countInt, countSse, hh, hg]
+          · right; simp [exhausted]; omega
+    · left; exact h
+
+theorem fitsArgs_noSplit (vs : List View) (st : St) (hst : st.ok) (hn : ∀ v ∈ vs, v.natural)
+    (h : fitsArgs vs st = true) : noSplitArgs vs st = true := by
+  induction vs generalizing st with
+  | nil => rfl
+  | cons v r ih =>
+    simp only [fitsArgs, Bool.and_eq_true] at h
+    simp only [noSplitArgs, Bool.and_eq_true]
+    exact ⟨argFits_noSplit v st hst (hn v (by simp)) h.1,
+      ih (placeArg v st).2 (placeArg_ok v st hst) (fun x hx => hn x (by simp [hx])) h.2⟩
+
+/-! ## C strings -/
+
+theorem strlenFrom_append (s rest : List UInt8) (h : (0 : UInt8) ∉ s) :
+    strlenFrom (s ++ 0 :: rest) = some s.length := by
+  induction s with
+  | nil => simp [strlenFrom]
+  | cons b r ih =>
+    have hb : b ≠ 0 := fun hb => h (by simp [hb])
+    have hr : (0 : UInt8) ∉ r := fun hr => h (by simp [hr])
+    simp [strlenFrom, hb, ih hr]
+
+theorem drop_append_len {α : Type} (a b : List α) (n : Nat) (h : a.length = n) : (a ++ b).drop n = b := by
+  subst h; simp
+
+theorem take_append_len {α : Type} (a b : List α) (n : Nat) (h : a.length = n) : (a ++ b).take n = a := by
+  subst h; simp
 
 end LlgoVerif.CAbi
